@@ -5,7 +5,11 @@ import os, shutil, subprocess, sys, tempfile
 prop, rel, old, new = sys.argv[1:5]
 d = tempfile.mkdtemp(prefix='nvmut_')
 try:
-    shutil.copytree('/repo/nautilus', os.path.join(d, 'nautilus'))
+    import fcntl
+    with open('/tmp/nv_repo.lock', 'w') as lk:      # never copy a temporarily patched tree
+        fcntl.flock(lk, fcntl.LOCK_EX)
+        shutil.copytree('/repo/nautilus', os.path.join(d, 'nautilus'),
+                        ignore=shutil.ignore_patterns('__pycache__'))
     p = os.path.join(d, rel)
     s = open(p).read()
     if old not in s:
@@ -15,8 +19,8 @@ try:
     py_compile.compile(p, doraise=True)
     for pr in prop.split(','):
         r = subprocess.run([sys.executable, os.path.join(os.path.dirname(__file__), '..', 'nvstat', 'check.py'),
-                            '-p', pr, '--repo', d], capture_output=True, text=True)
+                            '-p', pr, '--repo', d], capture_output=True, text=True,
+                           env=dict(os.environ, NVSTAT_OUT=os.path.join(d, 'out')))
         print('\n'.join(l for l in r.stdout.splitlines() if not l.startswith('VIOLATION'))[-1500:], '-> exit', r.returncode)
 finally:
     shutil.rmtree(d)
-    # restore evidence of the real tree
